@@ -120,9 +120,13 @@ def decodeNItems (item : Dop) : (fuel : Nat) → Nat → DecM (List PVal)
   | 0, _ => raise .unmodelled
   | _+1, 0 => pure []
   | fuel+1, n+1 => do
+    let s ← getS
     let x ← decodeDop fuel item
-    let rest ← decodeNItems item fuel n
-    pure (x :: rest)
+    let s' ← getS
+    if s'.cursorByte ≤ s.cursorByte then raise .decode          -- "items … do not consume any data"
+    else do
+      let rest ← decodeNItems item fuel n
+      pure (x :: rest)
 
 /-- `while cursor < len(message): result.append(item.decode())`; running out of fuel = the Python loop
     does not terminate (an item that consumes no byte) -/
